@@ -292,8 +292,17 @@ fn c19_fleet_seq(case: &Case) {
                         }
                     }
                 }
-            } else if !case.check(r.is_err(), "ok-without-reply", || format!("call {tag} returned Ok without any reply: {outs:?}")) {
-                return;
+            } else {
+                if !case.check(r.is_err(), "ok-without-reply", || format!("call {tag} returned Ok without any reply: {outs:?}")) {
+                    return;
+                }
+                // An unparsable reply is not a transport failure: the node received and
+                // processed the request, so the call must not be sent again.
+                if let Some(p) = outs.iter().position(|e| e.ends_with("Malformed"))
+                    && !case.check(p + 1 == outs.len(), "retried-after-malformed-reply", || format!("call {tag} was sent again after the node answered it with an unparsable reply: {outs:?}"))
+                {
+                    return;
+                }
             }
         }
     }
